@@ -52,19 +52,19 @@ ObsReset(e) ==
 
 \* ---- asynchronous operations (C01, C14) ----
 ObsCall(e) ==
-  IF e.op \in DOMAIN ops THEN Fail("C01/harness/op-id-reused")
+  IF e.op \in DOMAIN ops THEN Fail("har/op-id-reused")
   ELSE /\ ops' = ops @@ (e.op :> [o |-> e.o, st |-> "run", ret |-> FALSE, err |-> ""])
        /\ UNCHANGED <<kinds, cls, lim, base, ost, csnap, tm, posted, ranp, anomaly, bad>>
 
 ObsRet(e) ==
-  IF e.op \notin DOMAIN ops THEN Fail("C01/harness/unknown-op")
+  IF e.op \notin DOMAIN ops THEN Fail("har/unknown-op")
   ELSE /\ ops' = [ops EXCEPT ![e.op].ret = TRUE]
        /\ UNCHANGED <<kinds, cls, lim, base, ost, csnap, tm, posted, ranp, anomaly, bad>>
 
 IsErrno(s) == s = "errno"
 
 ObsCbB(e) ==
-  IF e.op \notin DOMAIN ops THEN Fail("C01/harness/unknown-op")
+  IF e.op \notin DOMAIN ops THEN Fail("har/unknown-op")
   ELSE LET r == ops[e.op] IN
     IF r.st = "done" THEN Fail("C01/double-completion/" \o Kind(r.o))
     ELSE IF ost[r.o] = "closed" THEN Fail("C01/callback-after-close/" \o Kind(r.o))
@@ -82,7 +82,7 @@ ObsCancelB(e) ==
   /\ UNCHANGED <<kinds, cls, lim, base, ost, ops, tm, posted, ranp, anomaly, bad>>
 
 ObsCancelE(e) ==
-  IF csnap = <<>> \/ csnap[1].o # e.o THEN Fail("C01/harness/cancel-nesting")
+  IF csnap = <<>> \/ csnap[1].o # e.o THEN Fail("har/cancel-nesting")
   \* (an object closed by a callback that ran during this Cancel is exempt: after
   \*  Close no callback may run, so its remaining operations are dropped)
   ELSE IF ost[e.o] = "open" /\ \E id \in csnap[1].ids : ops[id].st # "done"
@@ -184,6 +184,19 @@ ObsPostRunB(e) ==
        /\ ranp' = IF ranp = "" THEN "" ELSE "y"
        /\ UNCHANGED <<kinds, cls, lim, base, ost, ops, csnap, tm, anomaly, bad>>
 
+\* ---- RunPending (C03) ----
+\* the driver made every parked operation completable before the call
+ObsRunPendE(e) ==
+  IF Ledger > 0 THEN Fail("C03/runpending-early")
+  ELSE IF e.err # "nil" THEN Fail("C03/runpending-error")
+  ELSE UNCHANGED monvars
+
+ObsStuck(e) ==
+  IF e.api = "RunPending" THEN
+     (IF Ledger = 0 THEN Fail("C03/runpending-stuck/" \o (IF anomaly = "" THEN "plain" ELSE anomaly))
+      ELSE Fail("C03/runpending-stuck/in-flight"))
+  ELSE Fail("har/stuck/" \o e.api)
+
 \* ---- end of scenario, after the drain phase ----
 \* the driver made every parked operation completable, polled until its own
 \* ledger was empty or a generous budget expired, and waited out due timers
@@ -219,8 +232,11 @@ Obs(e) ==
     [] e.ev = "PostE"    -> ObsPostE(e)
     [] e.ev = "PostRunB" -> ObsPostRunB(e)
     [] e.ev = "PostRunE" -> Skip
+    [] e.ev = "RunPendB" -> Skip
+    [] e.ev = "RunPendE" -> ObsRunPendE(e)
+    [] e.ev = "Stuck"    -> ObsStuck(e)
     [] e.ev = "End"      -> ObsEnd(e)
-    [] OTHER             -> Fail("harness/unknown-event")
+    [] OTHER             -> Fail("har/unknown-event")
 
 NotBad == bad = ""
 =============================================================================
